@@ -230,15 +230,10 @@ def skips (skip : Bool) (ins outs : List Key) (arg : Env) : Bool :=
 /-- TensorDictModule.forward without tensordict_out. The error carries the argument as left. -/
 def fwdMod (skip : Bool) (x : ModX) (arg : Env) : Except (Env × Bool) Out :=
   if skips skip x.m.ins (x.sel.getD x.m.outs) arg then
-    -- the forward is skipped but the `_OutKeysSelect` forward hook still runs on the returned input: it drops the
-    -- unselected out_keys that happen to be there; when an in_key is missing it takes the call for a dispatched
-    -- one (`_detect_dispatch`) and returns the tensordict as it is (one selected key) or raises (several)
-    match x.sel with
-    | none => .ok { arg := arg, fresh := none }
-    | some s =>
-      if x.m.ins.all (hasKeyOrNode arg) then .ok { arg := hook x.m s arg, fresh := none }
-      else if s.length == 1 then .ok { arg := arg, fresh := none }
-      else .error (arg, false)
+    -- the forward is skipped and the input is handed back as it is (repaired: the `_OutKeysSelect` forward hook used to
+    -- run on the returned input, dropping unselected out_keys that happened to be there, or raising when an in_key
+    -- was missing — `_set_skip_existing_None` now tells the hook that the forward did not run)
+    .ok { arg := arg, fresh := none }
   else
   match readArgs arg x.m.ins with
   | none => .error (arg, false)
@@ -273,8 +268,9 @@ def fwdNode (skip : Bool) : Node → Env → Except (Env × Bool) Out
   | .seq kids ip sel pt, arg =>
     if skips skip (nodesInOut kids [] []).1 (sel.getD (dedupLast (nodesInOut kids [] []).2)) arg then
       .ok { arg := arg, fresh := none } else
-    -- tensordict_exec = tensordict.copy() only when the out-keys were selected
-    let s0 : Exec := { arg := arg, exec := if sel.isSome then some arg else none }
+    -- tensordict_exec = tensordict.copy() when the out-keys were selected and (repaired) when the sequence is
+    -- `inplace=False` / `"empty"`: the input is then left as it is
+    let s0 : Exec := { arg := arg, exec := if sel.isSome || ip == some .no || ip == some .empty then some arg else none }
     match fwdKids skip kids pt s0 with
     | .error a => .error a
     | .ok s =>
